@@ -57,6 +57,11 @@ type Ref struct {
 	LastKind      string // assign-only kinds never occur: goto | ret | done | call | tail | call-skipped | tail-skipped
 	LastCallee    int
 	LastRecursive bool // the callee already had an activation (current procedure or a frame on the stack)
+	// PcalTailQuirk reproduces what the TLA+ tools' translator emits for `call Q(..); return` inside a different
+	// procedure P: the head frame is replaced by Q's frame (same return label) but P's own variables are NOT
+	// restored from the popped frame.  That contradicts "return restores the saved values" (and the property);
+	// it is only used to show that this is the single point where the reference and pcal+TLC differ.
+	PcalTailQuirk bool
 }
 
 var errIllTyped = errors.New("ill-typed program (arithmetic on a non-number): not a PlusCal behaviour")
@@ -293,6 +298,12 @@ func (r *Ref) Step() (done bool, err error) {
 			return false, errors.New("tail call with empty stack")
 		}
 		ret := r.Stack[0].PC
+		if r.PcalTailQuirk && scope != t.P {
+			r.Stack = r.Stack[1:]
+			r.LastCallee = t.P
+			r.doCall(t.P, ret, args)
+			return false, nil
+		}
 		if err := r.doReturn(); err != nil {
 			return false, err
 		}
